@@ -176,6 +176,11 @@ class Enumerator:
                 v = None
                 if k == "use":
                     v = self.val_of(st, rv["o"])
+                elif k == "ref" and all(e == "*" for e in rv["p"].get("p", [])):
+                    # references are transparent for the abstract value (`&*x`, `&x`)
+                    v = st.vals.get(rv["p"]["l"])
+                    if v is not None and v[0] not in ("param", "variant", "agg", "tuple"):
+                        v = None
                 elif k == "agg" and "adt" in rv and not rv["ops"]:
                     v = ("variant", rv["adt"], rv["variant"])
                 elif k == "agg" and "adt" in rv:
